@@ -3,10 +3,11 @@
    repl/ReplProofs.v).  What is proved is the bookkeeping; the end-to-end equivalence (parser,
    compiler, VM) is validated by the real-vs-real search of vplib/props/c11.py.
 
-   Known finding F51 (kept visible): the alignment theorem carries the hypothesis `line_wf` ("the
-   line stored every slot it bound").  The real compiler violates it for a line whose sequence
-   short-circuits before a later step's binder is stored; C11_repl_alignment_shortcircuit_refuted
-   exhibits the committed session on which the invariant is false. *)
+   F51 (repaired by fd5925d, modelled as repaired): a line that short-circuits binds variables it
+   never stores.  The worker reports the process's locals count with the result and the REPL forgets
+   the variables at or beyond it before it compacts or looks a variable up (`forget`).  The
+   invariant is therefore stated on `forget s`, the session as the REPL sees it at those points;
+   C11_session_survives is the repair in general, C11_shortcircuit_line_survives the reproducer. *)
 From Coq Require Import List Arith Bool PeanoNat.
 From Quiver Require Import Base repl.Repl repl.ReplProofs.
 Import ListNotations.
@@ -15,10 +16,10 @@ Local Open Scope nat_scope.
 (* repl_alignment, part 1: compaction (repl.rs compact + worker compact_locals/replace_locals) *)
 Theorem C11_compact_preserves_alignment :
   forall (V : Type) (val : name -> V) (s : @session V),
-    aligned val s ->
+    aligned val (forget s) ->
     exists s1, compact s = COk s1 /\ aligned val s1 /\
                s_result s1 = s_result s /\ s_lrt_nil s1 = s_lrt_nil s /\
-               local_count (s_bindings s1) = length (s_locals s1).
+               local_count (s_bindings s1) = length (s_locals s1) /\ s_pending s1 = None.
 Proof. exact @compact_aligned. Qed.
 Print Assumptions C11_compact_preserves_alignment.
 
@@ -28,21 +29,22 @@ Theorem C11_release_preserves_alignment :
     aligned val s ->
     aligned val (mkSession (s_bindings s)
                            (release_orphan_locals vnil (s_locals s) (keep_indices (s_bindings s)))
-                           (s_result s) (s_lrt_nil s)).
+                           (s_result s) (s_lrt_nil s) (s_pending s)).
 Proof. exact @release_aligned. Qed.
 Print Assumptions C11_release_preserves_alignment.
 
 (* repl_alignment: through a whole `evaluate`.  For an accepted line the invariant holds for the
    new valuation whenever the compiled binding map and the run satisfy `line_wf`: every variable
-   is an old one at its compacted slot, or sits in a slot >= n that the line stored, where
-   n = local_count = the physical length after compaction (the slot of the parameter, which holds
-   the previous result). *)
+   is an old one at its compacted slot, or sits in a slot >= n and, if the line stored that slot,
+   the slot holds its value (n = local_count = the physical length after compaction = the slot of
+   the parameter, which holds the previous result).  Variables whose slot was never stored are
+   forgotten by the REPL, so nothing is asked of them. *)
 Theorem C11_repl_alignment :
   forall (V : Type) (vnil : V) (val : name -> V) (s : @session V) (l : line),
-    aligned val s ->
+    aligned val (forget s) ->
     match l with
     | LParseError => evaluate vnil s l = EParseError s
-    | LCompileError => exists s1, evaluate vnil s l = ECompileError s1 /\ aligned val s1
+    | LCompileError => exists s1, evaluate vnil s l = ECompileError s1 /\ aligned val (forget s1)
     | LOk c r =>
         exists s1, compact s = COk s1 /\ aligned val s1 /\
                    local_count (s_bindings s1) = length (s_locals s1) /\
@@ -50,10 +52,11 @@ Theorem C11_repl_alignment :
           (forall x i, In (x, BVar i) (c_bindings c) ->
              (i < length (s_locals s1) /\ In (x, BVar i) (s_bindings s1) /\ val' x = val x) \/
              (c_has_expr c = true /\ length (s_locals s1) <= i /\
-              nth_error (s_result s1 :: r_stored r) (i - length (s_locals s1)) = Some (val' x))) ->
+              (i < length (s_locals s1 ++ s_result s1 :: r_stored r) ->
+               nth_error (s_result s1 :: r_stored r) (i - length (s_locals s1)) = Some (val' x)))) ->
           if c_has_expr c
-          then exists s', evaluate vnil s l = EValue (r_value r) s' /\ aligned val' s' /\ s_result s' = r_value r
-          else exists s', evaluate vnil s l = ENone s' /\ aligned val' s' /\ s_result s' = s_result s
+          then exists s', evaluate vnil s l = EValue (r_value r) s' /\ aligned val' (forget s') /\ s_result s' = r_value r
+          else exists s', evaluate vnil s l = ENone s' /\ aligned val' (forget s') /\ s_result s' = s_result s
     end.
 Proof. exact @repl_alignment_thm. Qed.
 Print Assumptions C11_repl_alignment.
@@ -77,16 +80,16 @@ Print Assumptions C11_rejected_by_parser_inert.
    `request_variable` answers the same, `get_variables` lists the same names in the same order *)
 Theorem C11_rejected_by_compiler_inert :
   forall (V : Type) (vnil : V) (val : name -> V) (s : @session V),
-    aligned val s ->
+    aligned val (forget s) ->
     exists s1,
       evaluate vnil s LCompileError = ECompileError s1 /\
-      renumber (keep_indices (s_bindings s)) (s_bindings s) = Val (s_bindings s1) /\
-      map fst (s_bindings s1) = map fst (s_bindings s) /\
+      renumber (keep_indices (s_bindings (forget s))) (s_bindings (forget s)) = Val (s_bindings s1) /\
+      map fst (s_bindings s1) = map fst (s_bindings (forget s)) /\
       s_result s1 = s_result s /\ s_lrt_nil s1 = s_lrt_nil s /\
       (forall x, request_variable s1 x = request_variable s x) /\
-      get_variables s1 = get_variables s /\
-      (forall x, lookup x (s_bindings s1) = Some BAlias <-> lookup x (s_bindings s) = Some BAlias) /\
-      aligned val s1.
+      get_variables s1 = get_variables (forget s) /\
+      (forall x, lookup x (s_bindings s1) = Some BAlias <-> lookup x (s_bindings (forget s)) = Some BAlias) /\
+      aligned val (forget s1).
 Proof. exact @rejected_by_compiler_inert. Qed.
 Print Assumptions C11_rejected_by_compiler_inert.
 
@@ -114,12 +117,12 @@ Print Assumptions C11_split_equivalence_per_line.
 (* non-vacuity: a concrete aligned session whose compaction renumbers, a line satisfying the
    hypothesis of C11_repl_alignment on it, and a splitting satisfying lines_nil_free *)
 Theorem C11_nonvacuity :
-  aligned Examples.val_ex Examples.s_ex /\
-  compact Examples.s_ex = COk (mkSession [(0, BVar 1); (1, BAlias); (2, BVar 0)] [20; 10] 77 false) /\
-  line_wf (mkSession [(0, BVar 1); (1, BAlias); (2, BVar 0)] [20; 10] 77 false)
+  aligned Examples.val_ex (forget Examples.s_ex) /\
+  compact Examples.s_ex = COk (mkSession [(0, BVar 1); (1, BAlias); (2, BVar 0)] [20; 10] 77 false None) /\
+  line_wf (mkSession [(0, BVar 1); (1, BAlias); (2, BVar 0)] [20; 10] 77 false None)
           Examples.c_ex Examples.r_ex Examples.val_ex Examples.val_ex' /\
   evaluate 0 Examples.s_ex (LOk Examples.c_ex Examples.r_ex) =
-    EValue 1 (mkSession [(0, BVar 5); (1, BAlias); (2, BVar 0); (3, BVar 3)] [20; 0; 0; 99; 0; 55] 1 false) /\
+    EValue 1 (mkSession [(0, BVar 5); (1, BAlias); (2, BVar 0); (3, BVar 3)] [20; 0; 0; 99; 0; 55] 1 false (Some 6)) /\
   lines_nil_free Examples.exec_ex (Nat.eqb 0) [[1; 2]; []; [3]; [4; 5]] [] 0 /\
   line_values Examples.exec_ex (Nat.eqb 0) [[1; 2]; []; [3]; [4; 5]] [] 0 = [3; 3; 6; 15].
 Proof.
@@ -128,15 +131,28 @@ Proof.
 Qed.
 Print Assumptions C11_nonvacuity.
 
-(* F51 (known finding): the hypothesis of C11_repl_alignment is not met by the real compiler for
-   `5 =6, x = 7`: x is bound at slot 1, only the parameter is stored.  On the session the code
-   commits, the invariant is false for every valuation, request_variable fails, and the next
-   compiled line makes the worker's CompactLocals fail (the session is lost). *)
-Theorem C11_repl_alignment_shortcircuit_refuted :
-  (forall val, aligned val (@initial nat 0)) /\
+(* the repair of F51 in general: whatever a line with expressions binds and stores, the session it
+   leaves can be compacted (no LocalNotFound out of Worker::step): the next line runs *)
+Theorem C11_session_survives :
+  forall (V : Type) (vnil : V) (s : @session V) (c : compiled) (r : ran),
+    in_range (forget s) -> c_has_expr c = true ->
+    exists s', evaluate vnil s (LOk c r) = EValue (r_value r) s' /\ in_range (forget s') /\
+               exists s1', compact s' = COk s1'.
+Proof. exact @session_survives_thm. Qed.
+Print Assumptions C11_session_survives.
+
+(* F51's reproducer `5 =6, x = 7` on the repaired code: x is bound at slot 1, only the parameter is
+   stored, the worker reports 1 local.  The raw binding map violates the invariant, the session as
+   the REPL sees it after forgetting satisfies it, request_variable x answers VariableNotFound
+   (get_variables, which does not forget, still lists x until then), and the next lines run. *)
+Theorem C11_shortcircuit_line_survives :
   evaluate 0 (initial 0) (LOk Examples.c_f51 Examples.r_f51) = EValue 0 Examples.s_f51 /\
   (forall val, ~ aligned val Examples.s_f51) /\
-  request_variable Examples.s_f51 0 = WErr (LocalNotFound 1) /\
-  evaluate 0 Examples.s_f51 LCompileError = EWorkerError (LocalNotFound 1) (mkSession [(0, BVar 0)] [0] 0 false).
-Proof. exact Examples.shortcircuit_refuted. Qed.
-Print Assumptions C11_repl_alignment_shortcircuit_refuted.
+  (forall val, aligned val (forget Examples.s_f51)) /\
+  request_variable Examples.s_f51 0 = WErr VariableNotFound /\
+  get_variables Examples.s_f51 = [0] /\
+  evaluate 0 Examples.s_f51 LCompileError = ECompileError (mkSession [] [] 0 false None) /\
+  evaluate 0 Examples.s_f51 (LOk (mkCompiled [(1, BVar 1)] true false) (mkRan [9] 1))
+    = EValue 1 (mkSession [(1, BVar 1)] [0; 9] 1 false (Some 2)).
+Proof. exact Examples.shortcircuit_survives. Qed.
+Print Assumptions C11_shortcircuit_line_survives.
